@@ -158,6 +158,8 @@ def sliceThen (s1 : Nat) (e1 : Option Nat) (s2 : Nat) (e2 : Option Nat) : Except
     | none, some b => some ((b : Int) + s1)
     | some a, none => some (a : Int)
     | some a, some b => some (min (a : Int) ((b : Int) + s1))
+  -- `if new_stop is not None and new_stop < new_start: new_stop = new_start`
+  let newStop : Option Int := newStop.map (fun e => if e < newStart then newStart else e)
   mkSlice newStart newStop
 
 /-- `Sort.then`: `next`'s terms first, then those of `self` not already present. -/
@@ -217,6 +219,7 @@ def commute (self cur : UOp) (tcols ccols : Cols) : Commutator :=
   | .identity => ⟨some self, cur, true⟩
   | .calc tag e =>
     if !(e.columnsRequired.subset tcols) then commuteFail cur
+    else if tag ∈ tcols then commuteFail cur        -- `self.tag in current.target.columns`
     else
       match cur with
       | .proj c => ⟨some self, .proj (c.insert tag), true⟩
@@ -251,7 +254,10 @@ def commute (self cur : UOp) (tcols ccols : Cols) : Commutator :=
   | .sort ts =>
     if !((sortCols ts).subset tcols) then commuteFail cur
     else if cur.isOrderDependent then commuteFail cur
-    else ⟨some self, cur, true⟩
+    else
+      match cur with
+      | .sort _ => commuteFail cur          -- `isinstance(current.operation, Sort)`
+      | _ => ⟨some self, cur, true⟩
 
 end UOp
 
